@@ -522,5 +522,128 @@ pub fn run_c17(cfg: &Cfg) -> i32 {
         }
         server.stop();
     }
+    agent_layer_c17(&mut rep, cfg);
     rep.finish()
+}
+
+
+/// C17 one layer up: the agent evaluates all candidate policies of a run on ONE evaluator, in the
+/// order its hash map yields them. Whatever happened to the policies visited before - three, four,
+/// five failures in a row, for whatever reason - a policy's result must be the one it gets when it
+/// is the only candidate.
+fn agent_layer_c17(rep: &mut Report, cfg: &Cfg) {
+    use crate::bases::{candidate_policy, config_data};
+    use crate::dom;
+    let n = cfg.count(8, 400);
+    for i in 0..n {
+        let idx = cfg.case_index(i);
+        let mut r = cfg.prng("C17-agent-layer", idx);
+        let mut database = db::generate(r.next_u64(), Size::Small);
+        database.as_sets.insert("AS-VH-AMBIGUOUS".into(), vec![]);
+        database.as_sets.insert("AS-VH-BROKEN".into(), vec![]);
+        let mut faults = Faults::default();
+        faults.by_query.insert("!iAS-VH-AMBIGUOUS,1".into(), Fault::NotUnique);
+        faults.by_query.insert("!iAS-VH-BROKEN,1".into(), Fault::Other("no such set".into()));
+        // 2-4 good policies, 3-6 failing ones (unknown set = D, E, F, PeerAS)
+        let mut pols: Vec<(String, String, bool)> = Vec::new();
+        for g in 0..r.range(2, 4) {
+            let o = GenExprOpts::safe_for(&database, 1 + (g % 2) as u32);
+            pols.push((format!("good-{g}"), expr::generate_expr_with(r.next_u64(), &database, &o).to_rpsl(), true));
+        }
+        let nbad = r.range(3, 6);
+        for b in 0..nbad {
+            let e = match (b + r.below(4)) % 4 {
+                0 => format!("AS-VH-MISSING-{b}"),
+                1 => "AS-VH-AMBIGUOUS".to_string(),
+                2 => "AS-VH-BROKEN".to_string(),
+                _ => "AS65000 AND PeerAS".to_string(),
+            };
+            pols.push((format!("bad-{b}"), e, false));
+        }
+        let server = match Server::start(database.clone(), faults.clone()) {
+            Ok(s) => s,
+            Err(e) => {
+                rep.inconclusive("fake irrd", &format!("{e}"));
+                continue;
+            }
+        };
+        let port = server.port();
+        let xml_of = |ps: &[(String, String, bool)]| {
+            let t = config_data(ps.iter().map(|(n, e, _)| candidate_policy(n, &format!("/* bgpfu-fltr: {e} */"), None)).collect());
+            dom::serialise(&t, &dom::Style::default())
+        };
+        let call = |xml: String| -> Option<Result<Vec<agent::verif::EvaluatedItem>, String>> {
+            let (tx, rx) = mpsc::channel();
+            std::thread::spawn(move || {
+                let r = std::panic::catch_unwind(|| agent::verif::evaluate(&xml, "127.0.0.1", port)).unwrap_or_else(|p| Err(format!("panic: {}", crate::sess::panic_message(p))));
+                let _ = tx.send(r);
+            });
+            rx.recv_timeout(Duration::from_secs(60)).ok()
+        };
+        // stand-alone results of the good ones
+        let mut alone: Vec<(String, Option<(Vec<String>, Vec<String>)>)> = Vec::new();
+        let mut usable = true;
+        for p in pols.iter().filter(|p| p.2) {
+            match call(xml_of(std::slice::from_ref(p))) {
+                Some(Ok(v)) if v.len() == 1 => alone.push((p.0.clone(), v[0].2.clone())),
+                other => {
+                    rep.inconclusive("agent-layer stand-alone evaluation", &format!("{:?}", other.map(|r| r.map(|v| v.len()))));
+                    usable = false;
+                }
+            }
+        }
+        if !usable {
+            continue;
+        }
+        // together, several times (the hash map's order differs from call to call)
+        let reps = 12;
+        for k in 0..reps {
+            let key = format!("agent-layer|{idx}|{k}");
+            rep.case(Some(key.as_bytes()));
+            rep.count("agent_layer_runs");
+            let Some(res) = call(xml_of(&pols)) else {
+                rep.violation("agent-layer:evaluation-hangs", "evaluating the candidates together did not finish within 60 s", json!({"case_index": idx, "seed": cfg.seed}));
+                break;
+            };
+            let res = match res {
+                Ok(v) => v,
+                Err(e) => {
+                    rep.violation("agent-layer:evaluation-step-failed", &e, json!({"case_index": idx, "seed": cfg.seed}));
+                    break;
+                }
+            };
+            for (name, want) in &alone {
+                let got = res.iter().find(|x| x.0 == *name).map(|x| x.2.clone());
+                if got.as_ref() != Some(want) {
+                    let what = match (&got, want) {
+                        (Some(None), Some(_)) => "fails-only-among-the-others",
+                        (Some(Some(_)), None) => "succeeds-only-among-the-others",
+                        (None, _) => "missing-from-the-result",
+                        _ => "different-set",
+                    };
+                    rep.violation(
+                        &format!("agent-layer:history-dependent:{what}"),
+                        &format!("policy {name}: alone {}, among {} other candidates ({nbad} of them unevaluable) {}", summarise(want), pols.len() - 1, got.as_ref().map_or("absent".to_string(), summarise)),
+                        json!({"case_index": idx, "seed": cfg.seed, "repetition": k, "policies": pols.iter().map(|p| format!("{} = {}", p.0, p.1)).collect::<Vec<_>>(),
+                               "order_is": "the agent's hash map order of this call (not observable from outside)"}),
+                    );
+                }
+            }
+            // and the unevaluable ones stay unevaluated
+            for p in pols.iter().filter(|p| !p.2) {
+                if let Some(x) = res.iter().find(|x| x.0 == p.0) {
+                    if x.2.is_some() {
+                        rep.violation("agent-layer:unevaluable-policy-evaluated", &format!("policy {} ({}) got a result", p.0, p.1), json!({"case_index": idx, "seed": cfg.seed}));
+                    }
+                }
+            }
+        }
+    }
+}
+
+fn summarise(v: &Option<(Vec<String>, Vec<String>)>) -> String {
+    match v {
+        None => "failed".into(),
+        Some((a, b)) => format!("evaluated to {} + {} ranges", a.len(), b.len()),
+    }
 }
